@@ -85,11 +85,239 @@ Proof. vm_compute. repeat split. Qed.
     hold for what the code says now. A change of one of these functions that is not an equivalent rewrite breaks the
     proof obligation here. *)
 From Hoot Require Import Gen.
-From Hoot.proofs Require Import Gen_equiv.
+From Hoot.proofs Require Import Gen_equiv_ext.
 Theorem c15_code_is_retaining : forall s, gen_is_retaining s = is_retaining s.
 Proof. exact gen_is_retaining_eq. Qed.
 Theorem c15_code_need_request_body : forall m, gen_need_request_body m = need_request_body m.
 Proof. exact gen_need_request_body_eq. Qed.
+
+(* ================================================================== strengthening (review 3) *)
+(** Proofs: proofs/C15_more.v. *)
+From Hoot Require Import Httparse Script.
+From Hoot.proofs Require Import C15_more.
+
+(** THE TABLE AS A TABLE.  Written row by row from the English statement, without reference to the code:
+    statuses 307 and 308 preserve the method and are not followed ([None]) for POST, PUT, PATCH, DELETE; every
+    other status keeps HEAD and GET and turns every other method into GET.  [redirect_table status m] looks the
+    method up in the table selected by the status ([Some None] = not followed). *)
+Theorem c15_table_def :
+  preserving_statuses = [307; 308] /\
+  table_307_308 =
+    [ (GET, Some GET); (HEAD, Some HEAD); (OPTIONS, Some OPTIONS); (TRACE, Some TRACE); (CONNECT, Some CONNECT);
+      (POST, None); (PUT, None); (PATCH, None); (DELETE, None) ] /\
+  table_other_3xx =
+    [ (HEAD, Some HEAD); (GET, Some GET);
+      (POST, Some GET); (PUT, Some GET); (PATCH, Some GET); (DELETE, Some GET);
+      (OPTIONS, Some GET); (TRACE, Some GET); (CONNECT, Some GET) ] /\
+  forall status m,
+    redirect_table status m =
+      lookup_method m (if existsb (N.eqb status) preserving_statuses then table_307_308 else table_other_3xx).
+Proof. repeat split. Qed.
+
+(** The table has a row for every method, and it is the function [redirect_method] of the theorems above ... *)
+Theorem c15_table_total : forall status m, redirect_table status m = Some (redirect_method status m).
+Proof. exact redirect_table_total. Qed.
+
+(** ... and it is, for every status and method, the expression by which [as_new_flow] selects the method (the
+    right-hand side is that expression verbatim, Flow.v; [is_retaining] / [need_request_body] are tied to the Rust
+    source by [c15_code_*]). *)
+Theorem c15_table_matches_code : forall status m,
+  redirect_table status m =
+    Some (if is_retaining status then
+            if need_request_body m then None
+            else if method_eqb m DELETE then None
+            else Some m
+          else match m with GET | HEAD => Some m | _ => Some GET end).
+Proof. exact redirect_table_model. Qed.
+
+(** [as_new_flow] read off the table row. *)
+Theorem c15_as_new_flow_table : forall f p loc status orig target row,
+  i_location f = Some loc -> is_text loc = true -> i_status f = Some status ->
+  am_req (c_req (i_call f)) = Some orig ->
+  u_scheme (am_eff_uri (c_req (i_call f))) <> [] ->
+  resolve (am_eff_uri (c_req (i_call f))) loc = Some target ->
+  redirect_table status (rq_method orig) = Some row ->
+  match row with
+  | None => as_new_flow f p = Ok (f, None)
+  | Some nm =>
+      exists f' nxt, as_new_flow f p = Ok (f', Some nxt) /\
+                     am_method (c_req (i_call nxt)) = nm /\
+                     am_eff_uri (c_req (i_call nxt)) = target /\
+                     am_version (c_req (i_call nxt)) = rq_version orig
+  end.
+Proof. exact as_new_flow_table. Qed.
+
+(** "IT REPORTS THAT STATUS", ACROSS THE BODY PATH.  Every operation available between the response head and the
+    Redirect state -- leaving RecvResponse, reading body bytes (also a read that fails), setting the
+    stop-on-boundary flag, leaving RecvBody -- keeps the recorded status and Location. *)
+Theorem c15_status_preserved : forall f f',
+  (exists t, recv_response_proceed f = Ok (Some (t, f'))) \/
+  (exists i c n o, recv_body_read f i c = Ok (f', n, o)) \/
+  (exists i c, f' = recv_body_after_err f i c) \/
+  (exists b, recv_body_stop f b = Ok f') \/
+  (exists t, recv_body_proceed f = Ok (Some (t, f'))) ->
+  i_status f' = i_status f /\ i_location f' = i_location f.
+Proof. exact status_preserved. Qed.
+
+(** Hence: whatever sequence of those operations ([after_head], the reflexive-transitive closure of the five
+    cases above) leads from the flow [recv_try_response] returned with a response head to a flow [g], [g] reports
+    the status of THAT head.  ([recv_try_response] is the only function that writes [i_status]; a caller that
+    calls it again while still in RecvResponse presents a new head and gets the new status -- "received" means the
+    last head parsed.) *)
+Theorem c15_reports_received : forall f0 input f used rsp g,
+  recv_try_response f0 input = Ok (f, used, Some rsp) -> after_head f g ->
+  i_status g = Some (rs_status rsp).
+Proof. exact reports_received. Qed.
+
+Theorem c15_after_head_cases : forall f g,
+  after_head f g ->
+  g = f \/
+  exists f', after_head f' g /\
+    ((exists t, recv_response_proceed f = Ok (Some (t, f'))) \/
+     (exists i c n o, recv_body_read f i c = Ok (f', n, o)) \/
+     (exists i c, f' = recv_body_after_err f i c) \/
+     (exists b, recv_body_stop f b = Ok f') \/
+     (exists t, recv_body_proceed f = Ok (Some (t, f')))).
+Proof.
+  intros f g H. destruct H; [left; reflexivity|right; eexists; split; [eassumption|]..]; eauto 10.
+Qed.
+
+(** "ENTERED EXACTLY": THE ONLY WAYS IN.  The two proceed functions answer Redirect only with a recorded
+    redirect status (and Cleanup only without one); no other proceed function ever answers Redirect. *)
+Theorem c15_response_proceed_tags : forall f t f',
+  recv_response_proceed f = Ok (Some (t, f')) ->
+  t = TRecvBody \/ (t = TRedirect /\ is_redirect f' = true) \/ (t = TCleanup /\ is_redirect f' = false).
+Proof. exact response_proceed_tags. Qed.
+
+Theorem c15_body_proceed_tags : forall f t f',
+  recv_body_proceed f = Ok (Some (t, f')) ->
+  f' = f /\ ((t = TRedirect /\ is_redirect f = true) \/ (t = TCleanup /\ is_redirect f = false)).
+Proof. exact body_proceed_tags. Qed.
+
+Theorem c15_no_other_entry : forall f f',
+  send_request_proceed f <> Ok (Some (TRedirect, f')) /\
+  await_100_proceed f <> Ok (TRedirect, f') /\
+  send_body_proceed f <> Ok (Some (TRedirect, f')).
+Proof.
+  intros f f'. split; [apply send_request_proceed_not_redirect|].
+  split; [apply await_proceed_not_redirect|apply send_body_proceed_not_redirect].
+Qed.
+
+Theorem c15_is_redirect_def : forall f,
+  is_redirect f = match i_status f with Some st => is_redirect_status st | None => false end.
+Proof. intros f. unfold is_redirect. destruct (i_status f); reflexivity. Qed.
+
+Theorem c15_as_new_flow_keeps_status : forall f p f' n,
+  as_new_flow f p = Ok (f', n) -> i_status f' = i_status f.
+Proof. exact as_new_flow_keeps. Qed.
+
+(** For the operation language of Script.v (every operation of the API): a step ends with a flow [f] in the
+    Redirect state only if [f] was already there, or the step was [proceed] in RecvResponse / RecvBody with the
+    proceed function answering Redirect, or it was [as_new_flow] on a Redirect flow. *)
+Theorem c15_step_entry : forall s o f,
+  s_obj (fst (step s o)) = ObFlow TRedirect f ->
+  s_obj s = ObFlow TRedirect f \/
+  (exists f0, o = OProceed /\ s_obj s = ObFlow TRecvResponse f0 /\
+              recv_response_proceed f0 = Ok (Some (TRedirect, f))) \/
+  (exists f0, o = OProceed /\ s_obj s = ObFlow TRecvBody f0 /\
+              recv_body_proceed f0 = Ok (Some (TRedirect, f))) \/
+  (exists p f0 n, o = OAsNewFlow p /\ s_obj s = ObFlow TRedirect f0 /\ as_new_flow f0 p = Ok (f, n)).
+Proof.
+  intros s o f H. destruct (step_entry s o f H); eauto 10.
+Qed.
+
+(** Hence after EVERY history of operations a flow in the Redirect state reports a 3xx status other than 304. *)
+Theorem c15_only_entries : forall ops f,
+  s_obj (run_ops s_init ops) = ObFlow TRedirect f ->
+  exists st, i_status f = Some st /\ is_redirect_status st = true.
+Proof. exact only_entries. Qed.
+
+(** EXAMPLES REACHED THROUGH THE SCRIPT, instantiating the hypotheses of [c15_enter_without_body],
+    [c15_enter_after_body] and [c15_as_new_flow]. *)
+Definition ex15_uri : uri := {| u_scheme := s2b "http"; u_auth := s2b "a.test"; u_pq := s2b "/x" |}.
+Definition ex15_req (m : method) : request :=
+  {| rq_method := m; rq_version := V11; rq_uri := ex15_uri; rq_headers := [] |}.
+Definition ex15_head (status_line : bytes) (fields : bytes) : bytes :=
+  status_line ++ CRLF ++ s2b "location: /y" ++ CRLF ++ fields ++ CRLF.
+(** POST with a chunked 3-byte body, then the response head [r]; GET, then [r]. *)
+Definition ex15_post_ops (r : bytes) : list op :=
+  [ONew (ex15_req POST); OProceed; OWriteHead 1000; OProceed; OWriteBody (s2b "abc") 100; OWriteBody [] 100;
+   OProceed; ORawTryResponse r].
+Definition ex15_get_ops (r : bytes) : list op :=
+  [ONew (ex15_req GET); OProceed; OWriteHead 1000; OProceed; ORawTryResponse r].
+
+(** 307 to a POST, no response body: Redirect is entered from RecvResponse, reports 307, and the redirect is not
+    followed under either policy (nothing changed). *)
+Example c15_script_307_post :
+  let r := ex15_head (s2b "HTTP/1.1 307 Temporary Redirect") [] in
+  match s_obj (run_ops s_init (ex15_post_ops r)), s_obj (run_ops s_init (ex15_post_ops r ++ [OProceed])) with
+  | ObFlow TRecvResponse f0, ObFlow TRedirect f =>
+      (i_holder f0 = HRecvResponse /\ c_reader (i_call f0) = Some RNoBody /\ i_status f0 = Some 307 /\
+       NoDup (i_reasons f0) /\ expects_body RNoBody = false) /\
+      recv_response_proceed f0 = Ok (Some (TRedirect, f)) /\
+      (i_location f = Some (s2b "/y") /\ is_text (s2b "/y") = true /\ i_status f = Some 307 /\
+       am_req (c_req (i_call f)) = Some (ex15_req POST) /\
+       u_scheme (am_eff_uri (c_req (i_call f))) <> [] /\
+       match resolve (am_eff_uri (c_req (i_call f))) (s2b "/y") with
+       | Some t => u_auth t = s2b "a.test" /\ u_pq t = s2b "/y"
+       | None => False
+       end) /\
+      redirect_table 307 POST = Some None /\
+      as_new_flow f Never = Ok (f, None) /\ as_new_flow f SameHost = Ok (f, None)
+  | _, _ => False
+  end.
+Proof. vm_compute. repeat split; auto; try discriminate; try constructor. Qed.
+
+(** 303 to the same POST: followed, and the new flow is a GET to the resolved target. *)
+Example c15_script_303_post :
+  let r := ex15_head (s2b "HTTP/1.1 303 See Other") [] in
+  match s_obj (run_ops s_init (ex15_post_ops r ++ [OProceed])) with
+  | ObFlow TRedirect f =>
+      i_status f = Some 303 /\ redirect_table 303 POST = Some (Some GET) /\
+      match as_new_flow f Never with
+      | Ok (_, Some nxt) =>
+          am_method (c_req (i_call nxt)) = GET /\ am_version (c_req (i_call nxt)) = V11 /\
+          u_pq (am_eff_uri (c_req (i_call nxt))) = s2b "/y"
+      | _ => False
+      end /\
+      snd (step (run_ops s_init (ex15_post_ops r ++ [OProceed; OAsNewFlow Never; OFollow])) OQMethod) = [TW (s2b "GET")]
+  | _ => False
+  end.
+Proof. vm_compute. repeat split. Qed.
+
+(** 304 with a Location: not a redirect, Cleanup.  300 and 399: Redirect. *)
+Example c15_script_304_300_399 :
+  (match s_obj (run_ops s_init (ex15_get_ops (ex15_head (s2b "HTTP/1.1 304 Not Modified") []) ++ [OProceed])) with
+   | ObFlow TCleanup f => i_status f = Some 304
+   | _ => False
+   end) /\
+  (match s_obj (run_ops s_init (ex15_get_ops (ex15_head (s2b "HTTP/1.1 300 Multiple Choices") []) ++ [OProceed])) with
+   | ObFlow TRedirect f => i_status f = Some 300
+   | _ => False
+   end) /\
+  (match s_obj (run_ops s_init (ex15_get_ops (ex15_head (s2b "HTTP/1.1 399 X") []) ++ [OProceed])) with
+   | ObFlow TRedirect f => i_status f = Some 399
+   | _ => False
+   end).
+Proof. vm_compute. repeat split. Qed.
+
+(** 301 WITH a 3-byte body: RecvBody, two reads, then Redirect is entered from RecvBody and still reports 301
+    and the Location; the hypotheses of [c15_enter_after_body] hold before the proceed. *)
+Example c15_script_301_body :
+  let r := ex15_head (s2b "HTTP/1.1 301 Moved Permanently") (s2b "content-length: 3" ++ CRLF) in
+  let ops := ex15_get_ops r ++ [OProceed; ORawRead (s2b "ab") 100; OStop true; ORawRead (s2b "c") 100] in
+  match s_obj (run_ops s_init ops), s_obj (run_ops s_init (ops ++ [OProceed])) with
+  | ObFlow TRecvBody f0, ObFlow TRedirect f =>
+      i_status f0 = Some 301 /\ recv_body_can_proceed f0 = Ok true /\
+      recv_body_proceed f0 = Ok (Some (TRedirect, f)) /\
+      i_status f = Some 301 /\ i_location f = Some (s2b "/y") /\
+      match as_new_flow f SameHost with
+      | Ok (_, Some nxt) => am_method (c_req (i_call nxt)) = GET
+      | _ => False
+      end
+  | _, _ => False
+  end.
+Proof. vm_compute. repeat split. Qed.
 
 Print Assumptions c15_table_307_308.
 Print Assumptions c15_table_other.
@@ -101,3 +329,21 @@ Print Assumptions c15_redirect_status_iff.
 Print Assumptions c15_nonvacuous.
 Print Assumptions c15_code_is_retaining.
 Print Assumptions c15_code_need_request_body.
+Print Assumptions c15_table_def.
+Print Assumptions c15_table_total.
+Print Assumptions c15_table_matches_code.
+Print Assumptions c15_as_new_flow_table.
+Print Assumptions c15_status_preserved.
+Print Assumptions c15_reports_received.
+Print Assumptions c15_after_head_cases.
+Print Assumptions c15_response_proceed_tags.
+Print Assumptions c15_body_proceed_tags.
+Print Assumptions c15_no_other_entry.
+Print Assumptions c15_is_redirect_def.
+Print Assumptions c15_as_new_flow_keeps_status.
+Print Assumptions c15_step_entry.
+Print Assumptions c15_only_entries.
+Print Assumptions c15_script_307_post.
+Print Assumptions c15_script_303_post.
+Print Assumptions c15_script_304_300_399.
+Print Assumptions c15_script_301_body.
